@@ -18,7 +18,7 @@ RULE = ('every distinct abstract state reached by the C01 event exploration (ope
         'distinct = distinct abstract world fingerprints continued; liveness restated as bounded progress')
 ASSUMPTIONS = ['simulated Twisted reactor (verif/shims), virtual time', 'bounded-progress restatement: "stays up" observed for max(3H,250) s',
                'cooperative peer continues a connection already in use with the hold time negotiated on it']
-SHARD_TIMEOUT = {'quick': 300, 'thorough': 1800}
+SHARD_TIMEOUT = {'quick': 600, 'thorough': 1800}
 CFGS = {
     'default': {},
     'small': {'hold_time': 9, 'idle_hold_time': 5, 'connect_retry_time': 40},
@@ -27,7 +27,7 @@ CFGS = {
 DEPTH = {'quick': {'default': (3, 6), 'small': (3, 5), 'retry10': (3, 5)}, 'thorough': {'default': (4, 8), 'small': (4, 8), 'retry10': (4, 8)}}
 PARTS = {'quick': 4, 'thorough': 5}
 WALKS = {'quick': (256, 250), 'thorough': (10000, 600)}
-BUDGET = {'quick': 50, 'thorough': 1000}
+BUDGET = {'quick': 300, 'thorough': 1000}
 PEER_HOLDS = [90, 0, 3, 180]
 _fresh = {}
 
@@ -234,6 +234,9 @@ def floors(m, tier):
     for st in ('IDLE', 'CONNECT', 'OPENSENT', 'OPENCONFIRM', 'ESTABLISHED'):
         if c.get('continued_from_%s' % st, 0) < 1:
             unmet.append('no continuation from state %s' % st)
+    if tier == 'quick' and m['counters'].get('truncated_shards', 0):
+        # the breadth-first part is meant to complete in the quick tier: a search cut by its time box is not 'held'
+        unmet = list(unmet) + ['%d breadth-first shard(s) were cut by their time box' % m['counters']['truncated_shards']]
     return unmet
 
 
